@@ -11,10 +11,10 @@ ids = args or sorted(os.listdir(os.path.join(V, "seeded")))
 BASE = "7d67693"
 
 
-def scratch(patch):
+def scratch(patch, bases=("HEAD", BASE)):
     d = tempfile.mkdtemp(prefix="verif-mx-", dir="/tmp")
     os.makedirs(d + "/repo")
-    for base in ("HEAD", BASE):
+    for base in bases:
         shutil.rmtree(d + "/repo", ignore_errors=True)
         os.makedirs(d + "/repo")
         subprocess.run("cd /repo && git archive %s iOpt | tar -x -C %s/repo" % (base, d), shell=True, check=True)
@@ -27,7 +27,10 @@ def scratch(patch):
 def run(sid):
     sd = os.path.join(V, "seeded", sid)
     meta = json.load(open(sd + "/meta.json"))
-    d, base = scratch(sd + ("/patch.head.diff" if os.path.exists(sd + "/patch.head.diff") else "/patch.diff"))
+    if meta.get("apply_to"):       # a change that is only meaningful against a particular commit (see meta["note"])
+        d, base = scratch(sd + "/patch.diff", (meta["apply_to"],))
+    else:
+        d, base = scratch(sd + ("/patch.head.diff" if os.path.exists(sd + "/patch.head.diff") else "/patch.diff"))
     try:
         meta["applied_to"] = base if base != "HEAD" else subprocess.run("git -C /repo log --format=%h -1", shell=True, capture_output=True, text=True).stdout.strip()
         props = [meta["breaks_property"]] if only_target else ALL
